@@ -14,6 +14,8 @@ import Proofs.GoTieScrypt
 import Proofs.GoTieFormat
 import Proofs.GoTieStreamW
 import Proofs.GoTieArmorR
+import Proofs.GoTieWitnessA
+import Proofs.GoTieWitnessB
 namespace AgeModel
 namespace Tie.C14
 
@@ -97,6 +99,17 @@ theorem armor_read_returns (E : GoTie.B64DecEnv) (g : Extracted.armor_armoredRea
     (h : GoTie.ARel g m) (p : Bytes) :
     ∃ res, Extracted.armor_armoredReader_Read E.Dec g p = .ok res :=
   GoTie.armor_read_returns E g m h p
+
+/-- **the assumption structures this file's theorems take are satisfiable** (for a lawful toy primitive suite
+    with the 16-byte tag, where they mention primitives): none of the theorems above is vacuous. The instances are in
+    `Proofs/GoTieWitnessA.lean` / `GoTieWitnessB.lean`. -/
+theorem assumptions_satisfiable :
+    Prims.toy16.Correct ∧ Prims.toy16.aead.NonceSep ∧ Prims.toy16.aead.T = 16 ∧
+    (∀ k : Bytes, Nonempty (GoTie.AeadEnv Unit AEAD.toy16 k)) ∧
+    (∀ S : Stream.DstSpec, Nonempty (GoTie.DstEnv (Stream.Dst S) S)) ∧
+    Nonempty (GoTie.ScryptEnv Prims.toy16) ∧
+    Nonempty GoTie.B64DecEnv :=
+  ⟨Prims.toy16_correct, AEAD.toy16_nonceSep, rfl, (fun k => ⟨GoTie.AeadEnv.witness k⟩), (fun S => ⟨GoTie.DstEnv.witness S⟩), ⟨GoTie.ScryptEnv.witness⟩, ⟨GoTie.B64DecEnv.witness⟩⟩
 
 end Tie.C14
 end AgeModel
